@@ -264,6 +264,7 @@ type plain struct{ A int }
 func main() {
 	ev.GuardFor("C20")
 	r := ev.Start("C20")
+	defer r.FinishOnPanic()
 	e = &enum.E{R: r}
 	// ---- 8-bit types: every pair and every triple
 	var i8 []int8
